@@ -165,13 +165,16 @@ def szxSpcr (fx : Fix) (b size : Nat) : M Unit := do
   let a ← getAsset
   check fx .szxSpcrBorder (decide (7 < a.u8 b)) .invalidSzx
 
+/-- for 16K/48K files the AY chunk switches the AY on or off by bit 1 of its flags byte -/
+def ayAfter (mid : Nat) (ay : Bool) (flags : Nat) : Bool :=
+  let flag128 := decide ((flags / 2) % 2 = 1)
+  if mid < 2 then (if flag128 && !ay then true else if !flag128 && ay then false else ay) else ay
+
 /-- `process_ay_block`; returns the new `ay_enabled` -/
 def szxAy (fx : Fix) (e : SzxEnv) (ay : Bool) (b size : Nat) : M Bool := do
   check fx .szxAyShort (decide (size < 1)) .invalidSzx
   let a ← getAsset
-  let flag128 := (a.u8 b / 2) % 2 = 1
-  -- for 16K/48K files the chunk switches the AY on or off
-  let ay' := if e.mid < 2 then (if flag128 && !ay then true else if !flag128 && ay then false else ay) else ay
+  let ay' := ayAfter e.mid ay (a.u8 b)
   -- only with the AY on: block_data[1], &block_data[2..], regs[..16]
   check fx .szxAyShort (ay' && decide (size < 18)) .invalidSzx
   pure ay'
@@ -182,13 +185,16 @@ def szxKeyb (fx : Fix) (size : Nat) : M Unit :=
 def szxAmxm (fx : Fix) (size : Nat) : M Unit :=
   check fx .szxAmxmShort (decide (size < 1)) .invalidSzx
 
+/-- page renumbering of `process_ramp_block` for 16K/48K files: 5 → 0, 2 → 1, 0 → 2 -/
+def rampPage (mid page : Nat) : Nat :=
+  if mid < 2 then (if page = 5 then 0 else if page = 2 then 1 else if page = 0 then 2 else page) else page
+
 /-- `process_ramp_block` -/
 def szxRamp (fx : Fix) (e : SzxEnv) (b size : Nat) : M Unit := do
   check fx .szxRampShort (decide (size < 3)) .invalidSzx
   let a ← getAsset
   let flags := a.le16 b
-  let page := a.u8 (b + 2)
-  let page := if e.mid < 2 then (if page = 5 then 0 else if page = 2 then 1 else if page = 0 then 2 else page) else page
+  let page := rampPage e.mid (a.u8 (b + 2))
   check fx .szxRampPage (decide (e.r.ramPages ≤ page)) .invalidSzx
   -- block_data[3..].to_vec()
   alloc (size - 3)
@@ -203,6 +209,17 @@ def szxRamp (fx : Fix) (e : SzxEnv) (b size : Nat) : M Unit := do
   else do
     check fx .szxRampData (decide (size - 3 < PAGE)) .invalidSzx
     tick
+
+/-- `match id_str.as_str() { "CRTR" => .., .. }`; the value is the new `ay_enabled` -/
+def szxDispatch (fx : Fix) (e : SzxEnv) (ay : Bool) (b size : Nat) : ChunkId → M Bool
+  | .crtr => do szxCrtr fx b size; pure ay
+  | .z80r => do szxZ80r fx b size; pure ay
+  | .spcr => do szxSpcr fx b size; pure ay
+  | .ay => szxAy fx e ay b size
+  | .keyb => do szxKeyb fx size; pure ay
+  | .amxm => do szxAmxm fx size; pure ay
+  | .ramp => do szxRamp fx e b size; pure ay
+  | .other => pure ay
 
 /-- the `while asset.read_exact(&mut block_header).is_ok()` loop; `cursor` = `cursor_pos`,
 `fileLen` = the answer of the initial `seek(End(0))` (used by the repaired code only) -/
@@ -226,15 +243,7 @@ def szxWalk (fx : Fix) (e : SzxEnv) (fileLen : Nat) : Nat → Nat → Bool → M
       match ← tryReadExact size with
       | .error _ => failM .invalidSzx
       | .ok b => do
-        let ay' ← match chunkId id with
-          | .crtr => do szxCrtr fx b size; pure ay
-          | .z80r => do szxZ80r fx b size; pure ay
-          | .spcr => do szxSpcr fx b size; pure ay
-          | .ay => szxAy fx e ay b size
-          | .keyb => do szxKeyb fx size; pure ay
-          | .amxm => do szxAmxm fx size; pure ay
-          | .ramp => do szxRamp fx e b size; pure ay
-          | .other => pure ay
+        let ay' ← szxDispatch fx e ay b size (chunkId id)
         let cursor := cursor + size
         let _ ← seekM (.start cursor)
         szxWalk fx e fileLen fuel cursor ay'
